@@ -115,3 +115,22 @@ func inSet(s Set, q uint32) bool {
 //@   loop 0 invariant forall k int :: 0 <= k && k < len(nums) ==> cur[k] == old(nums[k])
 //@   loop 0 invariant forall k int :: len(nums) <= k && k < len(cur) ==> cur[k] == s.Start+uint32(k-len(nums))
 //@   loop 0 decreases int(s.Stop) - int(n) + 1
+
+// ---------------------------------------------------------------------------
+// Parsing of one number and one range ("n", "n:m", "*").
+
+// parseNum accepts exactly "*" (as 0) and the decimal numerals without a
+// leading zero whose value fits 32 bits, and yields that value.
+//
+//@ func parseNum(v string) (num uint32, err error)
+//@   props C15
+//@   ensures err == nil ==> (v == "*" && num == 0) || (__digits(v) && v[0] != '0' && uint64(num) == __decval(v))
+//@   ensures __digits(v) && v[0] != '0' && __decval(v) <= 0xFFFFFFFF ==> err == nil
+//@   ensures v == "*" ==> err == nil && num == 0
+
+// parseNumRange yields a range that satisfies the representation invariant
+// (the smaller bound first, "*" last).
+//
+//@ func parseNumRange(v string) (r Range, err error)
+//@   props C15
+//@   ensures err == nil ==> validRange(r)
